@@ -94,6 +94,7 @@ def _pool_conc(layout: tuple[int, ...], devs: list[tuple[int, int]], behaviours:
     cancels = [("c0", cancel_at, False)] if cancel_at else []
     run_callers(su, callers, devs, cancels)
     rt = vrt.RT
+    P.reached()
     P.note(layout=layout, devs=devs, behaviours=behaviours, cancel=cancel_at,
            outcomes=[(c.name, c.status, type(c.exc).__name__ if c.exc else None) for c in callers])
     # ------------------------------------------------------------- C07: progress
